@@ -11,6 +11,7 @@ CONSTANTS
   AllowRst = TRUE
   AllowTClose = TRUE
   AllowCRst = TRUE
+  AllowPause = FALSE
   Planned = TRUE
   Timeout = 2
   MaxNow = 3
